@@ -208,6 +208,9 @@ let parse_matches (t : Stdlib.String.t) : bmatch list =
 let snaps_pj : (int, pstate jfile) Hashtbl.t = Hashtbl.create 64
 let snaps_sj : (int, sstate jfile) Hashtbl.t = Hashtbl.create 64
 
+let unrep = ref false
+let host_arch = (try Sys.getenv "UV_ARCH" with Not_found -> "x86_64")
+let rec nat_of_int_pre i = if i <= 0 then O else S (nat_of_int_pre (i - 1))
 let parse_op (toks : Stdlib.String.t list) : op =
   match toks with
   | ["init"; r; y; p] ->
@@ -250,6 +253,20 @@ let parse_op (toks : Stdlib.String.t list) : op =
         | _ -> failwith ("bad event token " ^ t) in
       let l = List.filter (fun x -> x <> "" && x <> "-") (Stdlib.String.split_on_char ',' evs) in
       ODamage (DSetSj (JOk { rel = cstring_of (str_tok rel); evq = List.map ev l }))
+  | ["dmg"; "rawsj"; b] ->
+      (* arbitrary bytes written to state.json: the model reads them itself (JsonSj.sj_of_file).  Read a second time
+         with a wider vector reader: the width must not matter (the proofs fix a width, JsonSjProofs.v).  An event of
+         another platform / architecture is re-sent as the file has it; the model's event does not carry those two
+         fields, so such a history is marked and left out of the comparison (counted by the differ). *)
+      let bytes = bytes_of_ostring (blob_tok b) in
+      let n = List.length bytes in
+      let r = sj_of_file bytes in
+      if sj_of_file_n (nat_of_int_pre (n + 9)) bytes <> r then print_endline "WIDTH-MISMATCH sj_of_file";
+      (match fstate_of_body_n (nat_of_int_pre n) bytes with
+       | Some (_, q) ->
+           if List.exists (fun e -> ostring_of e.fe_platform <> "linux" || ostring_of e.fe_arch <> host_arch) q then unrep := true
+       | None -> ());
+      ODamage (DSetSj r)
   | ["dmg"; "sj"; "missing"] -> ODamage (DSetSj JMissing)
   | ["dmg"; "sj"; "garbage"] -> ODamage (DSetSj JGarbage)
   | ["dmg"; "sj"; k] -> ODamage (DSetSj (try Hashtbl.find snaps_sj (int_of_string k) with Not_found -> JMissing))
@@ -262,7 +279,7 @@ let pr_meta (m : meta) =
   Printf.sprintf "%s.%s.%s.%s" (decimal_of_n m.m_num) (decimal_of_n m.m_size) (hx m.m_hash) (ohx m.m_sig)
 let pr_ometa = function None -> "-" | Some m -> pr_meta m
 let pr_kind = function EvInstallSuccess -> "S" | EvInstallFailure -> "F" | EvDownload -> "D"
-let pr_msg = function MsgNone -> "n" | MsgInit -> "i" | MsgEngine -> "e"
+let pr_msg = function MsgNone -> "n" | MsgInit -> "i" | MsgEngine -> "e" | MsgOther s -> "?" ^ hx s
 let pr_event (e : event) =
   Printf.sprintf "%s.%s.%s.%s.%s" (pr_kind e.e_kind) (decimal_of_n e.e_num) (hx e.e_app) (hx e.e_rel) (pr_msg e.e_msg)
 let cmp_dec a b =
@@ -301,8 +318,8 @@ let pr_net = function
   | NDownload u -> "D:" ^ hx u
 let pr_line (o : out) (w : world) (l : netobs list) =
   let d = w.w_disk in
-  Printf.sprintf "out=%s sj=%s pj=%s arts=%s junk=%d net=%s" (pr_out o) (pr_sj d.sj) (pr_pj d.pj)
-    (pr_arts d) (if d.junk then 1 else 0) (Stdlib.String.concat ";" (List.map pr_net l))
+  Printf.sprintf "out=%s sj=%s pj=%s arts=%s junk=%d net=%s%s" (pr_out o) (pr_sj d.sj) (pr_pj d.pj)
+    (pr_arts d) (if d.junk then 1 else 0) (Stdlib.String.concat ";" (List.map pr_net l)) (if !unrep then " UNREP" else "")
 
 let pr_reading (tag : Stdlib.String.t) (name : Stdlib.String.t) (r : resp option) =
   match r with
@@ -407,7 +424,7 @@ let () =
        | [] -> ()
        | t :: _ when t.[0] = '#' -> ()
        | ["history"; name] ->
-           w := world0; idx := 0; cur_dls := dls0;
+           w := world0; idx := 0; cur_dls := dls0; unrep := false;
            Hashtbl.reset snaps_pj; Hashtbl.reset snaps_sj; Hashtbl.reset universe;
            Printf.printf "history %s\n" name
        | ["blob"; name; hex] -> Hashtbl.replace blobs name (if hex = "e" then "" else unhex_o hex)
